@@ -81,6 +81,27 @@ Definition tbl_eq (dv : V) (t1 t2 : table) : bool :=
   let keys := concat (t_keys t1) in
   if negb (Nat.eqb (length keys) (length (concat (t_keys t2)))) || negb (forallb (fun b => b) (contains t2 keys)) then false else
   match getv dv t1 keys, getv dv t2 keys with Ok a, Ok b => list_eqb_v a b | _, _ => false end.
+
+(* __add__ (L161-169): refused unless the two key arrays are equal (same buckets, same order inside them); then the values are added
+   position by position (a constant is broadcast), and the result is built on the same key array (its modulus is the number of buckets) *)
+Variable vadd : V -> V -> V.
+Fixpoint zlist_eqb (a b : list Z) : bool :=
+  match a, b with [], [] => true | x :: a', y :: b' => (x =? y) && zlist_eqb a' b' | _, _ => false end.
+Fixpoint rows_eqb (a b : list (list Z)) : bool :=
+  match a, b with [], [] => true | x :: a', y :: b' => zlist_eqb x y && rows_eqb a' b' | _, _ => false end.
+Definition vals_add (a b : tvals) : tvals :=
+  match a, b with
+  | VOne x, VOne y => VOne (vadd x y)
+  | VOne x, VAligned vb => VAligned (map (map (vadd x)) vb)
+  | VAligned va, VOne y => VAligned (map (map (fun v => vadd v y)) va)
+  | VAligned va, VAligned vb => VAligned (map2 (map2 vadd) va vb)
+  end.
+Definition tbl_add (t1 t2 : table) : res table :=
+  if rows_eqb (t_keys t1) (t_keys t2)
+  then Ok {| t_mod := zlen (t_keys t1) ; t_keys := t_keys t1 ; t_vals := vals_add (t_vals t1) (t_vals t2) |}
+  else Refused.
+(* np.zeros_like / np.ones_like (L209-218): a table on the same key array holding one constant *)
+Definition tbl_like (t : table) (v : V) : table := {| t_mod := zlen (t_keys t) ; t_keys := t_keys t ; t_vals := VOne v |}.
 End Hash.
 Arguments t_mod {V}. Arguments t_keys {V}. Arguments t_vals {V}. Arguments VOne {V}. Arguments VAligned {V}.
 
